@@ -88,10 +88,15 @@ template <> inline bool make_int<bool>(uint64_t h) { return (h >> 3) & 1; }
 template <class T> inline T make_flt(uint64_t h) { long long k = (long long)((h >> 5) % 33554431ull) - 16777215; return (T)k / (T)8; }
 template <class T> inline typename std::enable_if<std::is_integral<T>::value, T>::type make_val(uint64_t h) { return make_int<T>(h); }
 template <class T> inline typename std::enable_if<std::is_floating_point<T>::value, T>::type make_val(uint64_t h) { return make_flt<T>(h); }
+inline int g_nul = 0;   // set by a client that can take std::string results with embedded NUL bytes (length-carrying API)
 inline std::string make_str(uint64_t h) {
   static const char *alpha[] = {"a", "b", "Z", "0", " ", "_", "\xc3\xa9", "\xe2\x82\xac", "q", "\"", "\\", "%", "x"};
   size_t n = (h >> 4) % 9; std::string s;
-  for (size_t i = 0; i < n; ++i) { h = mix(h, i); s += alpha[h % 13]; }
+  for (size_t i = 0; i < n; ++i) {
+    h = mix(h, i);
+    if (g_nul && h % 11 == 3) { s += '\0'; continue; }
+    s += alpha[h % 13];
+  }
   return s;
 }
 inline const char *make_cstr(uint64_t h) {
@@ -129,6 +134,7 @@ inline void vf_rt_anchor() {}
     return vf::g_dump.c_str();                                                                 \
   }                                                                                            \
   extern "C" int vf_iid(const void *p) { return vf::iid_of(p); }                               \
-  extern "C" int vf_live_count() { return (int)vf::g_ranges.size(); }
+  extern "C" int vf_live_count() { return (int)vf::g_ranges.size(); }                         \
+  extern "C" void vf_set_nul(int v) { vf::g_nul = v; }
 #endif
 #endif
